@@ -8,8 +8,8 @@
 From HV Require Import Base.Prelude Base.Outcome Base.Bytes Model.IOProg Model.IOProgReader Model.IOProgSlice.
 From HV Require Import Model.CodecSuper Model.CodecType Model.FileImage Proofs.FileImage Proofs.FileImageData Proofs.FileImageProd.
 From HV Require Import Model.SliceRefine Proofs.SliceRefineBytes Proofs.SliceRefineContig Proofs.SliceRefineArith
-  Proofs.SliceRefineValidate Proofs.SliceRefineMain Proofs.SliceRefineFile Proofs.SliceRefineTop Proofs.SliceRefineExamples.
-From HV Require Proofs.HyperslabValidate.
+  Proofs.SliceRefineValidate Proofs.SliceRefineMain Proofs.SliceRefineFile Proofs.SliceRefineTop Proofs.SliceRefineSlice Proofs.SliceRefineExamples.
+From HV Require Proofs.HyperslabValidate Proofs.SliceRefineSliceH.
 
 (* ---- (1) refinement: on ANY file in which the dataset's data block (prod(dims) elements of es bytes) is placed at addr, for
    EVERY valid filled selection, the I/O program of readHyperslabContiguous succeeds and the value Go computes from the bytes
@@ -88,6 +88,46 @@ Theorem C09_file_slice_head : forall name class size cbf dims data,
   end.
 Proof. exact slice_head. Qed.
 Print Assumptions C09_file_slice_head.
+
+(* the ReadSlice entry point, for ALL (start, count) of uint64 numbers: the selection of the written data when the request
+   lies inside the dataset (start[i] + count[i] <= dims[i], same rank) and has at most 10^9 elements -- a count of 0 gives
+   the empty result without data I/O --, an error when it does not lie inside the dataset, and an error when it has more
+   than 10^9 elements (the second validation inside readHyperslab: utils.CalculateHyperslabElements). *)
+Theorem C09_file_read_slice_contiguous : forall name class size cbf dims data,
+  link_name_ok name = true -> basic_dtype class size cbf = true -> dims_ok dims = true ->
+  blen data = product dims * size -> blen data < 4294967296 ->
+  forall st cn hfuel, (3 < hfuel)%nat -> size = 4 \/ size = 8 -> Forall Hs.u64 st -> Forall Hs.u64 cn ->
+  let f := image_v2 name class size cbf dims data in
+  (Hs.slice_valid st cn dims -> Hs.prodN cn <= Hs.max_hyperslab_elements ->
+   exists sd, run0 f (api_read_slice SB' hfuel (dset_addr data) st cn) = Ok sd /\
+     slice_value size dims [] (Hs.slice_axes st cn) sd = Hs.select (evals size data) dims (Hs.slice_axes st cn)) /\
+  (~ Hs.slice_valid st cn dims -> run0 f (api_read_slice SB' hfuel (dset_addr data) st cn) = Err) /\
+  (Hs.slice_valid st cn dims -> Hs.max_hyperslab_elements < Hs.prodN cn ->
+   run0 f (api_read_slice SB' hfuel (dset_addr data) st cn) = Err).
+Proof. exact file_read_slice_contiguous. Qed.
+Print Assumptions C09_file_read_slice_contiguous.
+
+(* an accepted hyperslab selects at most MaxHyperslabElements blocks (why the bound is a hypothesis above) *)
+Theorem C09_validate_count_bound : forall h dims, Hs.validate h dims = Hs.Ok -> Hs.prodN (Hs.h_count h) <= Hs.max_hyperslab_elements.
+Proof. exact SliceRefineSliceH.validate_count_bound. Qed.
+Print Assumptions C09_validate_count_bound.
+
+(* ... and the element-level model of ReadSlice refuses a larger request that lies inside the dataset *)
+Theorem C09_read_slice_too_large : forall lay full dims st cn, Forall Hs.u64 dims -> Hs.slice_valid st cn dims ->
+  Hs.max_hyperslab_elements < Hs.prodN cn -> Hs.read_slice lay full dims st cn = None.
+Proof. exact SliceRefineSliceH.read_slice_too_large. Qed.
+Print Assumptions C09_read_slice_too_large.
+
+(* the hypotheses of C09_file_slice_contiguous and C09_file_read_slice_contiguous are satisfiable (the runs themselves:
+   C09_file_example_2d, Proofs/SliceRefineExamples.v ex_slice) *)
+Theorem C09_file_slice_witness :
+  link_name_ok [100] = true /\ basic_dtype 0 4 8 = true /\ dims_ok [4; 6] = true /\
+  blen wit_data = product [4; 6] * 4 /\ blen wit_data < 4294967296 /\
+  HyperslabValidate.u64_sel (hsel_of wit_sel) (length [4; 6]) /\ Hs.valid (hsel_of wit_sel) [4; 6] /\
+  Hs.prodN (s_count wit_sel) <= Hs.max_hyperslab_elements /\
+  Forall Hs.u64 [1; 2] /\ Forall Hs.u64 [2; 3] /\ Hs.slice_valid [1; 2] [2; 3] [4; 6] /\ Hs.prodN [2; 3] <= Hs.max_hyperslab_elements.
+Proof. exact file_slice_witness. Qed.
+Print Assumptions C09_file_slice_witness.
 
 (* ---- (3) non-vacuity and concrete runs (vm_compute on the image of int32 [4,6] = 0..23, rank 2, stride and block > 1) *)
 Theorem C09_file_example_2d :
